@@ -136,6 +136,29 @@ func (e *Engine) verifyUnit(u *FuncUnit) *UnitResult {
 			}
 			st.ghost[g.Name] = v
 		}
+		// a clause attached to a call point that the function no longer has (renamed receiver, call moved into a
+		// helper) would silently never fire: a counter would stay 0, a bound ghost unconstrained. The contract does
+		// not bind then, which is an undecided unit, never a verdict.
+		callPoints := map[string]bool{}
+		for n, k := range c.callOrd {
+			if call, ok := n.(*ast.CallExpr); ok {
+				nm := fmt.Sprintf("call %s#%d", types.ExprString(call.Fun), k)
+				callPoints["before "+nm], callPoints["after "+nm] = true, true
+			}
+		}
+		for _, pg := range ct.PointGhosts {
+			if (strings.HasPrefix(pg.Point, "before call ") || strings.HasPrefix(pg.Point, "after call ")) && !callPoints[pg.Point] {
+				c.abort("%s %s @ %s: the function has no such call", pg.Kind, pg.Name, pg.Point)
+			}
+		}
+		for _, pc := range ct.Points {
+			if (strings.HasPrefix(pc.Point, "before call ") || strings.HasPrefix(pc.Point, "after call ")) && !callPoints[pc.Point] {
+				if pc.C.Optional {
+					continue
+				}
+				c.abort("%s @ %s: the function has no such call", pc.C.Kind, pc.Point)
+			}
+		}
 		// ghosts bound at program points: unconstrained until their point is passed; counters start at 0
 		for _, pg := range ct.PointGhosts {
 			so, err := c.parseSort(pg.Sort)
